@@ -148,11 +148,10 @@ def extract_playback_tests(raw):
         if "kani::concrete_playback_run" not in body:
             continue
         chk = re.search(r"Check for `(\w+)`: \"(.*)\"", body)
-        if chk and chk.group(1) == "cover":
-            continue
+        # tests generated for cover properties are kept as candidates: only a natively failing test counts
         name = re.search(r"fn (kani_concrete_playback_\w+)", body).group(1)
         code = body[body.index("#[test]"):]
-        tests.append({"name": name, "check": chk.group(2) if chk else None, "code": code})
+        tests.append({"name": name, "check": chk.group(2) if chk else None, "check_kind": chk.group(1) if chk else None, "code": code})
     return tests
 
 
@@ -186,6 +185,7 @@ def native_playback(group, tests, timeout=1800):
         res["passed"] = int(m.group(2))
         res["failed"] = int(m.group(3))
     res["panics"] = re.findall(r"panicked at ([^\n]*\n[^\n]*)", out)[:6]
+    res["failed_tests"] = re.findall(r"^test \S*?(kani_concrete_playback_\w+) \.\.\. FAILED", out, re.M)
     if not m:
         res["output_tail"] = out[-1500:]
     return res
